@@ -11,7 +11,7 @@ def measure_expectation_statevector(pauli_op: PauliOperator, state: Sequence[flo
     Given a Pauli operator and a quantum state, it calculates the expectation value.
     """
     state = np.asarray(state)
-    return (state.T@pauli_op.as_matrix().toarray())@state
+    return (state.conj().T@pauli_op.as_matrix().toarray())@state
 
 
 # TODO: add more measurement methods
